@@ -160,6 +160,30 @@ pub fn run(ctx: &mut Ctx) {
             }
         }
     }
+    // long alternative lists (17..300, some 3000) against small partners, both orders, run
+    // on a 256 KiB stack: counts around 16/32/64/256 and stack depth following the list length
+    ctx.stratum("L-long-alternative-lists", false);
+    let n = ctx.tier.n(60, 2_000);
+    for i in 0..n {
+        if ctx.take() {
+            let mut r = Rng::for_case(ctx.seed, "C08-L", i);
+            if let Some(a) = long_alt_operand(&mut r, &tiv, true) {
+                if let Some(b) = long_partner(&mut r, &a, &tiv) {
+                    let done = on_small_stack(|| {
+                        judge_pair(ctx, &a, &b);
+                        // subtracting n alternatives from one wide piece is quadratic in n by
+                        // construction (every hole is checked against every remaining piece)
+                        if a.b.0.len() <= 3000 {
+                            judge_pair(ctx, &b, &a);
+                        }
+                    });
+                    if done.is_none() {
+                        ctx.inconclusive("small-stack thread ended without a result");
+                    }
+                }
+            }
+        }
+    }
     ctx.stratum("P-prerelease-and-big-bounds", false);
     let n = ctx.tier.n(20_000, 2_000_000);
     for i in 0..n {
